@@ -38,8 +38,8 @@ const SPEC: Spec = Spec {
         "a Sample that outlives its Subscriber is no longer a reference after the publisher's next connection refresh (documented reclaim)",
         "request/response payloads are covered by checks_ice::reqres::c02_parts",
     ],
-    watchdog_quick_s: 1800,
-    watchdog_thorough_s: 14400,
+    watchdog_quick_s: 3600,
+    watchdog_thorough_s: 28800,
 };
 
 fn run(variant: Variant, case: &Case, obs: &mut Obs) -> Result<(), Failure> {
@@ -70,9 +70,9 @@ fn body(ctx: &mut Ctx) {
     checks_ice::silence_iceoryx_log();
     logcap::install();
     let max_ops = ctx.scale(70, 200);
-    let n_local = ctx.scale(60_000, 700_000);
+    let n_local = ctx.scale(60_000, 400_000);
     ctx.proptest("hold.local", cases(n_local), holding_case(max_ops), |c, obs| run(Variant::Local, c, obs));
-    let n_ipc = ctx.scale(4_000, 80_000);
+    let n_ipc = ctx.scale(4_000, 40_000);
     ctx.proptest("hold.ipc", cases(n_ipc), holding_case(max_ops), |c, obs| run(Variant::Ipc, c, obs));
     logcap::uninstall_level();
     checks_ice::reqres::c02_parts(ctx);
